@@ -28,6 +28,7 @@ func main() {
 	params := flag.String("params", "", "k=v,k=v")
 	verbose := flag.Bool("v", false, "verbose")
 	noop := flag.String("noop", "", "extra no-op package prefixes, comma separated")
+	initPkgs := flag.String("init", "", "extra packages whose initialisers run, comma separated")
 	flag.Parse()
 	ov, err := gosym.Overlay(*repo, *hroot)
 	if err != nil {
@@ -47,6 +48,12 @@ func main() {
 	cfg := gosym.Config{Entry: *entry, Workers: *workers, MaxPaths: *maxPaths, Params: map[string]int{}, Verbose: *verbose, Preempt: -1}
 	if *noop != "" {
 		cfg.NoopPkgs = strings.Split(*noop, ",")
+	}
+	if *initPkgs != "" {
+		cfg.InitPkgs = map[string]bool{}
+		for _, ip := range strings.Split(*initPkgs, ",") {
+			cfg.InitPkgs[ip] = true
+		}
 	}
 	for _, kv := range strings.Split(*params, ",") {
 		if kv == "" {
